@@ -98,19 +98,19 @@ package rp
 // Callback handler: the token request is sent, and the application callback invoked, only after the
 // state check succeeded; with PKCE the verifier sent is the one read from the signed cookie.
 //@ func rp.CodeExchangeHandler$1
-//@   requires valid(w) && valid(r)
+//@   requires !Resp_written[w] && valid(w) && valid(r)
 //@   ensures exchange-only-with-state: called("rp.CodeExchange") ==> callres("rp.tryReadStateCookie", 1) == nil
 //@   ensures pkce-verifier-from-cookie: called("rp.CodeExchange") && rp.IsPKCE() ==> called("httphelper.CookieHandler.CheckCookie")
 //@        && callres("httphelper.CookieHandler.CheckCookie", 1) == nil && callarg("httphelper.CookieHandler.CheckCookie", 2) == "pkce"
 //@        && callarg("rp.WithCodeVerifier", 0) == callres("httphelper.CookieHandler.CheckCookie", 0)
-//@   ensures callback-only-after-exchange: called("dyn:callback") ==> called("rp.CodeExchange") && callres("rp.CodeExchange", 1) == nil
+//@   ensures callback-only-after-exchange: called("dyn:*callback") ==> called("rp.CodeExchange") && callres("rp.CodeExchange", 1) == nil
 //@        && callres("rp.tryReadStateCookie", 1) == nil
 
 // Start handler: one state value goes into the cookie and into the authorization URL; with PKCE the
 // challenge in the URL is the one whose verifier was stored.
 //@ func rp.AuthURLHandler$1
-//@   requires valid(w) && valid(r)
-//@   ensures one-state: called("rp.AuthURL") ==> callarg("rp.AuthURL", 0) == callres("dyn:stateFn", 0)
-//@        && callarg("rp.trySetStateCookie", 1) == callres("dyn:stateFn", 0) && callres("rp.trySetStateCookie", 0) == nil
+//@   requires !Resp_written[w] && valid(w) && valid(r)
+//@   ensures one-state: called("rp.AuthURL") ==> callarg("rp.AuthURL", 0) == callres("dyn:*stateFn", 0)
+//@        && callarg("rp.trySetStateCookie", 1) == callres("dyn:*stateFn", 0) && callres("rp.trySetStateCookie", 0) == nil
 //@   ensures pkce-challenge: called("rp.AuthURL") && rp.IsPKCE() ==> called("rp.GenerateAndStoreCodeChallenge") && callres("rp.GenerateAndStoreCodeChallenge", 1) == nil
 //@        && callarg("rp.WithCodeChallenge", 0) == callres("rp.GenerateAndStoreCodeChallenge", 0)
